@@ -1199,6 +1199,8 @@ func (h *host) onHook(point string) {
 		}
 	}
 	h.hookMu.Unlock()
+	// every hit is ground truth for the oracles (which internal step happened when)
+	h.record(Event{Actor: "hook", Kind: "hook.hit", Call: point, Extra: map[string]any{"nth": n}})
 	if !armed {
 		return
 	}
